@@ -33,6 +33,14 @@ impl Lzma2Decoder {
         }
     }
 
+    /// Digest of the adaptive decoder state, for external monitors.
+    #[cfg(feature = "verif")]
+    #[doc(hidden)]
+    #[allow(dead_code)]
+    pub fn verif_state_digest(&self) -> u64 {
+        self.lzma_state.verif_state_digest()
+    }
+
     /// Performs the equivalent of replacing this decompression state with a
     /// freshly allocated copy.
     ///
